@@ -275,6 +275,13 @@ class Model:
                 self.resets += 1
                 self.skipped = 0
             if self.aborted:
+                # "nothing further beyond the file being processed": a generator suspended at the value on_error returned
+                # for file f still finishes f (its skip accounting) when resumed, then stops
+                i = g[0]
+                if 0 < i < len(self.T) and self.T[i - 1][0] == 'yield' and self.T[i - 1][2] == 'E' \
+                        and self.T[i][0] == 'skip' and self.T[i][1] == self.T[i - 1][3]:
+                    self.skipped += 1
+                    g[0] = i + 1
                 g[2] = True
                 return 'STOP'
             out, idx, end = self._run_from(g[0], True)
@@ -326,9 +333,9 @@ def trace_items(root):
     yi = iter(ys)
     for h, f in w.trace:
         if h == 'on_match' or h == 'on_error':
-            T.append(('yield', next(yi)))
+            T.append(('yield', next(yi), 'E' if h == 'on_error' else 'M', f))
         elif h == 'on_skip':
-            T.append(('skip',))
+            T.append(('skip', f))
     return T
 
 
